@@ -20,8 +20,8 @@ EXTENDS Props, Json, TLCExt, Known
 
 TLog == ndJsonDeserialize("trace.ndjson")
 
-VARIABLES l, ob, conf
-tvars == <<st, ev, gh, l, ob, conf>>
+VARIABLES l, ob, conf, ghs
+tvars == <<st, ev, gh, l, ob, conf, ghs>>
 
 ToSet(seq) == {seq[i] : i \in DOMAIN seq}
 
@@ -55,6 +55,7 @@ TraceInit ==
   /\ gh = GhostInit(StateOf(TLog[1].st))
   /\ ob = TLog[1].ob
   /\ conf = TRUE
+  /\ ghs = GhostInit(StateOf(TLog[1].st))
 
 TraceNext ==
   /\ l < Len(TLog)
@@ -66,8 +67,12 @@ TraceNext ==
         /\ ev' = e
         /\ ob' = ln.ob
         /\ IF ln.k = "init"
-           THEN gh' = GhostInit(post) /\ conf' = TRUE
+           THEN gh' = GhostInit(post) /\ conf' = TRUE /\ ghs' = gh'
+           ELSE IF ln.k = "restore"
+           \* back from a probe (a message tried on a throw-away branch of the state)
+           THEN gh' = ghs /\ conf' = TRUE /\ ghs' = ghs
            ELSE /\ gh' = GhostNext(gh, st, e)
+                /\ ghs' = IF ln.k = "probe" THEN gh ELSE gh'
                 /\ conf' = Conforms(st, e, post)
                 /\ (conf' \/ PrintT(<<"DIVERGENCE", Explain(st, e, post)>>))
 
@@ -80,7 +85,7 @@ TraceAccepted == TLCGet(1) = Len(TLog)
 \* ------------------------------------------------------------------ layer A
 \* Step clauses over the logged steps; l changes in every step, so none of
 \* them is skipped as stuttering.
-NotReset == ev'.type # "Init"
+NotReset == ev'.type \notin {"Init", "Restore"}
 
 \* BEGIN GENERATED STEP WRAPPERS
 T_C02_OnlyIssuers == [][NotReset => C02_OnlyIssuers_Step]_tvars
